@@ -651,7 +651,7 @@ def _build_check_tool():
 
 def _key_c19(call, evs):
     i = call["input"]
-    b = dict(field="mr_td", cfg="absent", flag="absent", shape="full", fmt="textproto", quote="valid", inform="bin", roots="flagGood", net="off", crl="off")
+    b = dict(field="mr_td", cfg="absent", flag="absent", shape="full", fmt="textproto", quote="valid", inform="bin", roots="flagGood", net="off", crl="off", present="plain")
     dev = ["%s=%s" % (k, i[k]) for k in sorted(i) if k in b and i[k] != b[k] and k not in ("field",)]
     if i["cfg"] != "absent" or i["flag"] != "absent":
         dev.insert(0, "field=" + i["field"])
@@ -692,8 +692,13 @@ def _sys_run(prop, tier):
                         rule="every combination of device behaviour, transit alteration, trust, option level, served collateral, policy, consumer and event-log fit (4320 cases) runs end to end; what is delivered must be what TdxGuestSystem delivers")
 
 
+SYS_ABS_CFG = ('CONSTANTS\n  K = 0\n  Focus = {}\n  OptSet = "levels"\n  NowVals = {"set"}\nSPECIFICATION Spec\nINVARIANTS AbstractionsHold\nCHECK_DEADLOCK FALSE\n')
+
+
 def _c11(prop, tier):
     t0 = _time.time()
+    # the composition's one-line abstractions of its components must agree with the component specifications
+    C.tlc_must_pass(C.run_tlc("SystemAbstraction", SYS_ABS_CFG, workers=2, timeout=300), "SystemAbstraction (TdxGuestSystem's abstractions vs TdxVerify / GuestClient)")
     _, v1, c1 = verifyfam.run(prop, tier, part=True)
     _, v2, c2 = _sys_run(prop, tier)
     return smallfam.combine(prop, tier, [("honest-worlds", v1, c1), ("end-to-end", v2, c2)], t0)
